@@ -230,7 +230,7 @@ SPEC = {
         "elab_rejects_ctor_count", "elab_rejects_ctor_of_non_numeric", "elab_ctor_exact",
         "elab_rejects_index_type", "elab_index_exact", "elab_rejects_write_to_repeated_swizzle",
         "elab_rejects_const_write_chain", "elab_rejects_const_increment_chain", "elab_rejects_const_array_write_chain",
-        "elab_rejects_const_out_arg_chain", "elab_rejects_rvalue_write_chain_partial",
+        "elab_rejects_const_out_arg_chain", "elab_rejects_readonly_resource_write_chain", "elab_rejects_rvalue_write_chain_partial",
         "elab_rejects_rvalue_out_arg_chain_partial",
         "assignment_operands", "binary_operands_equal", "binop_rules",
         "elab_assign_exact", "elab_arith_exact", "elab_call_args_exact", "elab_intrinsic_call_exact",
@@ -244,7 +244,7 @@ SPEC = {
     "level_text": "Proof: for the model of elaboration — expressions (literals, variables, unary / binary / assignment operators, ?:, "
                   "calls of user functions and of the intrinsic functions of the re-extracted signature table with overload "
                   "resolution and in/out/inout parameters, casts, member access / vector, scalar and matrix swizzles, subscripts of "
-                  "arrays / vectors / matrices, numeric constructors) and statements (expression, return, definitions with "
+                  "arrays / vectors / matrices / buffers / textures, numeric constructors) and statements (expression, return, definitions with "
                   "expression and aggregate initialisers, blocks, if / for / while / do / switch with their scopes) — it is proved "
                   "by mutual structural induction over all expressions and statements, for debug and release builds, that an "
                   "accepted expression has the computed type under the IR's own typing judgment (get_type / get_return_type with "
@@ -252,8 +252,8 @@ SPEC = {
                   "struct, constructor slot contract), that every expression on every path of an accepted statement list is typed, "
                   "returns / initialisers (every leaf of an aggregate) have exactly the required type, and that writes (assignment "
                   "family, ++/--, out/inout arguments of user and intrinsic functions) to const or rvalue expressions — including "
-                  "through projection chains of any length (swizzles, subscripts) on const scalars / vectors / matrices and arrays "
-                  "of const elements —, wrong arity, unconvertible arguments, wrong return / initialiser types, wrong constructor "
+                  "through projection chains of any length (swizzles, subscripts) on const scalars / vectors / matrices, arrays "
+                  "of const elements and read-only resources —, wrong arity, unconvertible arguments, wrong return / initialiser types, wrong constructor "
                   "component counts and non-integer subscripts are never accepted. Where the full statement is false on the code it "
                   "is proved partially and the negation is a decide-checked witness replayed on the implementation: a member of a "
                   "const struct is written, an element of a non-lvalue is written, an array of const elements is assigned, an "
@@ -298,8 +298,8 @@ SPEC = {
         "same array type twice",
         "the harness is a debug build (parse_expr_internal re-derives the type of every node); the theorems cover both build "
         "modes and prove that this query never fires",
-        "outside the model (answered `unsupported`, reached by the IR walk only): objects (buffers, textures, ConstantBuffer), "
-        "methods, templates (DispatchMesh), enums inside operators, sizeof, case labels that are not literals",
+        "outside the model (answered `unsupported`, reached by the IR walk only): objects other than the subscript of "
+        "buffers / textures (ConstantBuffer, samplers, `.mips`, RayDesc), methods, templates (DispatchMesh), enums inside operators, sizeof, case labels that are not literals",
         "variables of the generated programs have unique names v<i>; a definition declares one variable; user function "
         "parameters are not arrays",
         "signature parameter types carry no modifier (parse_function_signature strips them)",
